@@ -100,6 +100,25 @@ def rule_r1(facts, rep, rid="C09-R1"):
                 else:
                     rep.violation(rid, key, "random_key tests `%s` for freshness but returns `%s`" % (tested, returned), loc(rk, iff))
                     return
+    # the retry loop makes progress only if every iteration draws a NEW candidate: no branch inside the loop may produce a candidate without the random source
+    if loops:
+        key_p = rk.def_ + "|retry-loop-draws-fresh-candidate"
+        rnd = [y for y in fb.walk(loops[0]) if y.get("k") in ("call", "mcall") and re.search(r"sample_string|thread_rng|::random|gen_range|Uuid::new_v4|OsRng", (fb.callee(y) or "") + " " + (y.get("name") or ""))]
+        cond_r = []
+        for y in rnd:
+            for p_ in c.parents(y):
+                if p_ is loops[0]:
+                    break
+                if p_.get("k") in ("if", "match") and p_.get("src", "Normal") == "Normal":
+                    cond_r.append(p_)
+        if not rnd:
+            rep.violation(rid, key_p, "the retry loop of random_key draws no random value: the same candidate is tested again and again (the request thread spins forever holding the read lock "
+                          "once that name is taken)", rk.loc)
+        elif cond_r:
+            rep.violation(rid, key_p, "inside the retry loop of random_key the candidate comes from the random source only on one branch of `%s`: on the other branch every iteration tests the same "
+                          "name, so the loop never ends once that name exists (the request is never answered and the next edit blocks on the lock)" % fb.show(cond_r[0].get("c") or cond_r[0].get("e"))[:60], loc(rk, cond_r[0]))
+        else:
+            rep.ok(rid, key_p, "every iteration draws a fresh random candidate", loc(rk, rnd[0]))
     if okf:
         rep.ok(rid, key, "loop { if !keys.contains_key(candidate) { return candidate } }", rk.loc)
     else:
@@ -402,6 +421,10 @@ def run(facts, rep, tier):
     rep.rule("C09-R3", "= C15-R1 restricted to the refactoring actions: each Change::Update{key: K, markdown: M} has M rendered with to_markdown(&K.parent(), ..)")
     sub = _Sub(rep, "C09-R3")
     c15.rule_r1(facts, sub, rid="C09-R3")
+    rep.rule("C09-R3b", "= C15-R3: inlined content is rendered by the one Projector of the host note (only project()/with() build a Projector, with() keeps the directory), so the block references that "
+                        "arrive with an inlined note are written relative to the host's directory.")
+    from .c06 import _MultiOnly
+    c15.rule_r3(facts, _MultiOnly(rep, ("constructs-projector", "keeps-parent")), "C09-R3b")
 
 
 class _Sub:
